@@ -277,7 +277,7 @@ fn case2<T: Elem>(case: u64, args: &Args, ev: &mut Ev) {
 
 fn main() {
     let args = Args::parse("C05");
-    let n = args.budget(300, 6000);
+    let n = args.budget(300, 30000);
     let ev = run_sharded(&args, n, |case, ev, _log| {
         let f32_ = case % 5 == 4;
         match (case % 3, f32_) {
